@@ -128,7 +128,6 @@ structure Core where
   ss : SS := .uninit
   pt : Bool := false           -- `_handle_event = passthrough`
   paused : Option K := none
-  crashed : Bool := false      -- transient: the last call raised
   hasFlow : Bool := false      -- `self.flow` exists
   live : Bool := false
   err : ErrK := .none
@@ -146,7 +145,6 @@ structure Core where
   attached : Bool := false     -- request headers were sent to a server connection
   dropped : Bool := false      -- DropStream emitted
   procReqErr : Bool := false   -- a RequestProtocolError has been handled
-  procRespErr : Bool := false  -- a ResponseProtocolError (from the server connection) has been handled
   seenReqHdr : Bool := false
   draining : Bool := false     -- inside `__continue`'s replay loop (set by a completion, cleared by the next direct event)
   stale : Bool := false        -- an exception escaped from `__continue` while queued events were (possibly) left behind
@@ -158,14 +156,15 @@ structure Core where
 structure W where
   c : Core
   out : List Out := []
+  crashed : Bool := false      -- an exception escaped from this call
   deriving Repr, Inhabited
 
 namespace W
-def emit (w : W) (o : Out) : W := { c := { w.c with m := mon w.c.m o }, out := o :: w.out }
+def emit (w : W) (o : Out) : W := { w with c := { w.c with m := mon w.c.m o }, out := o :: w.out }
 def upd (w : W) (f : Core → Core) : W := { w with c := f w.c }
 def pause (w : W) (k : K) : W := w.upd fun c => { c with paused := some k }
 def fire (w : W) (h : Hook) (k : K) : W := (w.emit (.hook h)).pause k
-def crash (w : W) : W := (w.emit .crash).upd fun c => { c with crashed := true }
+def crash (w : W) : W := { w.emit .crash with crashed := true }
 end W
 
 /-- the hook a suspension point waits for (none: a connection command) -/
@@ -351,28 +350,27 @@ def grammarOk (c : Core) : AEv → Bool
   | .reqHeaders .. => !c.seenReqHdr && (c.stale || !c.procReqErr)
   | .reqData _ | .reqEOM _ => c.stale || !c.procReqErr
   | .reqErr => true
-  | .respHeaders .. | .respData _ | .respEOM _ => c.attached && (c.stale || !c.procRespErr)
-  | .respErr => c.attached
+  | .respHeaders .. | .respData _ | .respEOM _ | .respErr => c.attached
   | _ => false
 
 def badCore : Core := { bad := true, cs := .errored, ss := .errored }
 
 /-- an HttpEvent handled by `_handle_event`; `queued`: it is replayed from `_paused_event_queue` by `__continue` -/
 def procEv (c : Core) (ev : AEv) (peek : Bool) (queued : Bool) : W :=
-  if c.bad then ⟨c, []⟩
-  else if c.pt then ⟨c, []⟩
-  else if !grammarOk c ev then ⟨badCore, []⟩
+  if c.bad then { c := c }
+  else if c.pt then { c := c }
+  else if !grammarOk c ev then { c := badCore }
   else
     let queued := queued && c.draining
-    let w : W := ⟨{ c with crashed := false, draining := queued }, []⟩
+    let w : W := { c := { c with draining := queued } }
     let w := match ev with
       | .reqErr => (handlePE w false .top peek).upd fun c => { c with procReqErr := true }
-      | .respErr => (handlePE w true .top peek).upd fun c => { c with procRespErr := true }
+      | .respErr => handlePE w true .top peek
       | .reqHeaders .. => (clientEvent w ev peek).upd fun c => { c with seenReqHdr := true }
       | .reqData _ | .reqEOM _ => clientEvent w ev peek
       | _ => serverEvent w ev
     -- an exception that escapes from `__continue` leaves the rest of `_paused_event_queue` behind
-    if queued && w.c.crashed then w.upd fun c => { c with stale := true } else w
+    if queued && w.crashed then w.upd fun c => { c with stale := true } else w
 
 -- ------------------------------------------------------------------------------------------------
 -- a completion resumes the generator
@@ -458,23 +456,23 @@ def resume (w : W) (k : K) (ok : Bool) (peek : Bool) : W :=
   | .connectErrHook => connectSends (w.upd fun c => { c with cs := .errored, live := false })
 
 /-- an exception that escapes from `__continue` leaves the rest of `_paused_event_queue` behind -/
-def markStale (w : W) : W := if w.c.crashed then w.upd fun c => { c with stale := true } else w
+def markStale (w : W) : W := if w.crashed then w.upd fun c => { c with stale := true } else w
 
 /-- a CommandCompleted event for the command the layer is paused on -/
 def procDone (c : Core) (ev : AEv) (peek : Bool) : W :=
-  if c.bad then ⟨c, []⟩
+  if c.bad then { c := c }
   else match c.paused with
-  | none => ⟨badCore, []⟩
+  | none => { c := badCore }
   | some k =>
-    let w : W := ⟨{ c with paused := none, crashed := false, draining := true }, []⟩
+    let w : W := { c := { c with paused := none, draining := true } }
     markStale <| match ev, k.hook with
     | .hookDone h a, some h' =>
-      if h == h' then resume (w.upd fun c => applyAction c h a) k true peek else ⟨badCore, []⟩
+      if h == h' then resume (w.upd fun c => applyAction c h a) k true peek else { c := badCore }
     | .connDone ok, none =>
-      if k == .connectOpen then ⟨badCore, []⟩ else resume w k ok peek
+      if k == .connectOpen then { c := badCore } else resume w k ok peek
     | .openDone ok, none =>
-      if k == .connectOpen then resume w k ok peek else ⟨badCore, []⟩
-    | _, _ => ⟨badCore, []⟩
+      if k == .connectOpen then resume w k ok peek else { c := badCore }
+    | _, _ => { c := badCore }
 
 -- ------------------------------------------------------------------------------------------------
 -- concrete layer: sizes and the paused-event queue
@@ -508,6 +506,7 @@ structure St where
   reqBuf : Nat := 0       -- len(request_body_buf)
   respBuf : Nat := 0
   queue : List Ev := []   -- _paused_event_queue
+  crashed : Bool := false -- the last call of _handle_event raised
   outs : List Out := []   -- every command emitted so far, newest first
   deriving Repr, Inhabited
 
@@ -554,13 +553,13 @@ def handleNow (s : St) (ev : Ev) (queued : Bool) : St :=
   let a := abstractEv s ev
   let w := if ev.isDone then procDone s.core a peek else procEv s.core a peek queued
   let (rb, sb) := bufAfter s ev
-  { s with core := w.c, reqBuf := rb, respBuf := sb, outs := w.out ++ s.outs }
+  { s with core := w.c, crashed := w.crashed, reqBuf := rb, respBuf := sb, outs := w.out ++ s.outs }
 
 /-- `__continue`'s loop: replay queued events until paused again (or an exception escaped) -/
 def drain : Nat → St → St
   | 0, s => s
   | fuel + 1, s =>
-    if s.core.paused.isSome || s.core.crashed then s
+    if s.core.paused.isSome || s.crashed then s
     else match s.queue with
       | [] => s
       | e :: q => drain fuel (handleNow { s with queue := q } e true)
